@@ -12,6 +12,7 @@ def main():
     from tcv import machine
     hist = machine.run_history(job['spec'], job['variants'], job['ops'], Path(job['root']), data=Path(job['data']))
     seg = machine.portable(hist, job['spec'])
+    seg['wiring'] = [r['wiring'] for r in hist['rec'] if r.get('wiring')]
     seg['errors'] = [r.get('error') for r in hist['rec'] if r.get('error')]
     seg['unexpected'] = [{'op': r['op'], 'exception': r['unexpected']} for r in hist['rec'] if r.get('unexpected') and not r['op'].get('failing')]
     seg['values'] = [{'op': r['op'], 'value': r.get('value'), 'expected': r.get('expected'), 'raised': r.get('raised', False),
